@@ -11,6 +11,10 @@ class LogCapture(logging.Handler):
         self.records = deque(maxlen=20000)
 
     def emit(self, record):
+        if not record.args:
+            # already formatted by the caller: no user code runs under the handler lock
+            self.records.append((record.levelname, str(record.msg)))
+            return
         try:
             self.records.append((record.levelname, record.getMessage()))
         except Exception:
